@@ -56,6 +56,80 @@ def r2_chain_per_handler(ctx):
            'each handler\'s chain is rebuilt from middleware_ids(handler) (%s); caches keyed by scope: %s; reordering ops on the chain: %s' % (ok_dom, caches or 'none', bad or 'none'))
 
 
+PIPE = A + 'processing_pipeline::pipeline::'
+
+
+def r3_stage_assembly(ctx):
+    from ..govern import field_reads_of_slice, field_reads_of_place
+    from ..tables import enum_switches, switch_arms, guard_context
+    ctx.rule('C05.R3', 'P5/P7 stage assembly: StageIds::invocation_order is pre ++ [middle] ++ post (operands of the two `chain` calls, in that order); '
+             'PipelineIds::invocation_order walks stages forwards for pre/middle and in reverse for the post-processors; in '
+             'RequestHandlerPipeline::new the grouping loop pushes pre- and post-processors to their own pending lists and the arm for a '
+             'wrapping middleware / handler builds StageIds { pre: take(pending pre), middle: id, post: take(pending post) }.')
+    so = ctx.need('C05.R3', 'StageIds::invocation_order', ctx.fb.body('pavexc', PIPE + 'StageIds::invocation_order'))
+    if so is not None:
+        defs = Defs(so)
+        chs = [(bb, t) for bb, t in so.calls() if callee(t) == 'core::iter::traits::iterator::Iterator::chain']
+        got = []
+        for bb, t in sorted(chs, key=lambda x: x[0]):
+            row = []
+            for a in t['args']:
+                pl = op_place(a)
+                sl, _ = backward_slice(so, pl['l'], defs) if pl else ([], set())
+                row.append(sorted(field_reads_of_slice(sl, {'pre_processing_ids', 'middle_id', 'post_processing_ids'})))
+            got.append(row)
+        want = [[['pre_processing_ids'], ['middle_id']], [['middle_id', 'pre_processing_ids'], ['post_processing_ids']]]
+        ctx.ob('C05.R3', 'stage-order|pre-middle-post', got == want, so.loc(), 'chain operands: %s (documented: pre ++ [middle] ++ post)' % got)
+    po = ctx.need('C05.R3', 'PipelineIds::invocation_order', ctx.fb.body('pavexc', PIPE + 'PipelineIds::invocation_order'))
+    if po is not None:
+        defs = Defs(po)
+        exts = []
+        for bb, t in po.calls():
+            m = (callee(t) or '').split('::')[-1]
+            if m in ('extend', 'push') and 'Vec<' in t['aty'][0]:
+                pl = op_place(t['args'][1])
+                sl, _ = backward_slice(po, pl['l'], defs) if pl else ([], set())
+                f = sorted(field_reads_of_slice(sl, {'pre_processing_ids', 'middle_id', 'post_processing_ids'}) | field_reads_of_place(pl or {}, {'pre_processing_ids', 'middle_id', 'post_processing_ids'}))
+                rev = 'core::iter::traits::iterator::Iterator::rev' in {c for c, _, _ in slice_calls(sl)}
+                exts.append((bb, m, f, rev))
+        pre = [e for e in exts if e[2] == ['pre_processing_ids']]
+        mid = [e for e in exts if e[2] == ['middle_id']]
+        post = [e for e in exts if e[2] == ['post_processing_ids']]
+        ok = bool(pre) and bool(mid) and bool(post) and po.dominates(pre[0][0], mid[0][0]) and post[0][0] in po.reachable(po.succ(mid[0][0])) and mid[0][0] not in po.reachable(po.succ(post[0][0])) \
+            and not pre[0][3] and not mid[0][3] and post[0][3]
+        ctx.ob('C05.R3', 'pipeline-order|forward-then-reverse-posts', ok, po.loc(),
+               'extend(pre) < push(middle) in the forward loop, extend(post) in a loop over stages.rev(): %s' % [(m, f, 'rev' if r else 'fwd') for _, m, f, r in exts])
+    new = ctx.need('C05.R3', 'RequestHandlerPipeline::new', ctx.fb.body('pavexc', PIPE + 'RequestHandlerPipeline::new'))
+    if new is not None:
+        defs = Defs(new)
+        HC = A + 'components::hydrated::HydratedComponent'
+        aggs = [(bb, st) for bb, j, st in new.all_assigns() if st['rv']['k'] == 'agg' and strip_generics(st['rv'].get('adt', '')) == PIPE + 'StageIds']
+        ctx.need('C05.R3', 'StageIds construction in the grouping loop', aggs)
+        for bb, st in aggs:
+            g = guard_context(new, bb)
+            hc = next((v for k, v in g.items() if k.endswith('HydratedComponent')), None)
+            takes = {}
+            for fname, o in zip(st['rv']['fields'], st['rv']['ops']):
+                pl = op_place(o)
+                sl, locs = backward_slice(new, pl['l'], defs) if pl else ([], set())
+                takes[fname] = ('core::mem::take' in {c for c, _, _ in slice_calls(sl)}, locs)
+            # the list taken for `pre` is the one the PreProcessingMiddleware arm pushes to
+            pushes = {}
+            for pb, t in new.calls():
+                if (callee(t) or '').endswith('Vec::push') and 'Idx<' in t['aty'][1]:
+                    gg = guard_context(new, pb)
+                    v = next((vv for k, vv in gg.items() if k.endswith('HydratedComponent')), None)
+                    if v and len(v) == 1:
+                        _, l2 = backward_slice(new, op_place(t['args'][0])['l'], defs, through_calls=False)
+                        pushes.setdefault(list(v)[0], set()).update(l2)
+            ok = hc is not None and hc <= {'RequestHandler', 'WrappingMiddleware'} and takes.get('pre_processing_ids', (False,))[0] and takes.get('post_processing_ids', (False,))[0] \
+                and bool(takes['pre_processing_ids'][1] & pushes.get('PreProcessingMiddleware', set())) and bool(takes['post_processing_ids'][1] & pushes.get('PostProcessingMiddleware', set())) \
+                and not (takes['pre_processing_ids'][1] & pushes.get('PostProcessingMiddleware', set()) - takes['post_processing_ids'][1] - pushes.get('PreProcessingMiddleware', set()))
+            ctx.ob('C05.R3', 'grouping|stage-takes-pending-lists', ok, new.loc(bb, st),
+                   'StageIds built under arm(s) %s with pre = take(list pushed in the PreProcessingMiddleware arm) and post = take(list pushed in the PostProcessingMiddleware arm): %s' % (sorted(hc) if hc else None, ok))
+            break
+
+
 def r4_stage_template(ctx):
     ctx.rule('C05.R4', 'template rule (tier B, keywords only, read from the quote! expansion in MIR): in processing_pipeline::codegen the pre-processing '
              "early exit is `break '<label>` (the template that contains `into_response` has a `break` followed by a lifetime and no `return`), the "
@@ -87,4 +161,5 @@ def r4_stage_template(ctx):
 def check(ctx):
     r1_snapshots(ctx)
     r2_chain_per_handler(ctx)
+    r3_stage_assembly(ctx)
     r4_stage_template(ctx)
